@@ -264,6 +264,27 @@ def run(ctx, col, tier):
     col.check("points = np.concatenate([[soma], points])" in src and "dic[names.type][0] = self.types.soma" in src
               and any(s.startswith("dic = {names.id: np.arange(n)") for s in src), R, q, d.loc(),
               "a given soma is put first (id 0) and typed as soma; ids are 0..n-1", "", "soma/ids set-up differs", stmt="soma")
+    # the soma joins the cloud by a promoting operation: np.insert / item assignment cast the soma to the cloud's dtype (an integer voxel cloud truncates a fractional soma)
+    col.rule("R-SOMACAST", "the given soma enters the point array at its own precision: it is joined by concatenate / vstack / stack (dtype promotion), never written into an array of the "
+             "cloud's dtype (np.insert, np.put, item assignment into points / a buffer allocated with points.dtype or *_like(points)): an integer voxel cloud would truncate a fractional soma", floor=1)
+    n_cast = 0
+    like = {a.targets[0].id for a in own_nodes(d) if isinstance(a, ast.Assign) and len(a.targets) == 1 and isinstance(a.targets[0], ast.Name) and isinstance(a.value, ast.Call)
+            and ((dotted(a.value.func) or "").rsplit(".", 1)[-1] in ("empty_like", "zeros_like", "ones_like", "full_like") and a.value.args and norm_src(a.value.args[0]) == "points"
+                 or any(k.arg == "dtype" and norm_src(k.value) == "points.dtype" for k in a.value.keywords))}
+    for c_ in own_nodes(d):
+        if isinstance(c_, ast.Call) and (dotted(c_.func) or "").rsplit(".", 1)[-1] in ("insert", "put", "place", "copyto") and c_.args and norm_src(c_.args[0]) in {"points"} | like \
+                and any(isinstance(x, ast.Name) and x.id == "soma" for a_ in c_.args[1:] for x in ast.walk(a_)):
+            n_cast += 1
+            col.bad("R-SOMACAST", q, d.loc(c_), "the soma keeps its coordinates",
+                    f"`{norm_src(c_)[:80]}` writes the soma into an array of the cloud's dtype: numpy casts the inserted values, so with an integer cloud (voxel indices) a soma at "
+                    f"(601.5, 598.25, 600.75) becomes (601, 598, 600) -- the tree is not rooted at the given soma", stmt="soma-cast", definite=True)
+        if isinstance(c_, ast.Assign) and any(isinstance(t_, ast.Subscript) and isinstance(t_.value, ast.Name) and t_.value.id in {"points"} | like for t_ in c_.targets) \
+                and any(isinstance(x, ast.Name) and x.id == "soma" for x in ast.walk(c_.value)):
+            n_cast += 1
+            col.bad("R-SOMACAST", q, d.loc(c_), "the soma keeps its coordinates",
+                    f"`{norm_src(c_)[:80]}` stores the soma into an array of the cloud's dtype (cast on assignment): an integer cloud truncates a fractional soma", stmt="soma-cast", definite=True)
+    if not n_cast:
+        col.ok("R-SOMACAST", q, d.loc(), "the soma keeps its coordinates", "no cast-on-write of the soma into the cloud's array", stmt="soma-cast")
     # limit table
     sat = [n for n in own_nodes(d) if isinstance(n, ast.If) and "self.furcations" in norm_src(n.test)]
     if len(sat) != 1:
